@@ -32,6 +32,8 @@ func searchErrKind(err error) int {
 	switch {
 	case strings.Contains(s, "does not exist"):
 		return 1
+	case strings.Contains(s, "search: failed to get") && strings.HasSuffix(s, ": not found"):
+		return 5 // the index search read a node / vector as absent (ItemCache ErrNotFound)
 	case strings.Contains(s, "transaction has ended"), strings.Contains(s, "tx closed"), strings.Contains(s, "already finished"):
 		return 2
 	}
@@ -40,6 +42,9 @@ func searchErrKind(err error) int {
 
 // runC09Child executes one concurrent run and prints a single `C <term>` line.
 func runC09Child(a childArgs) error {
+	if a.cfg == 10 {
+		return runC09Forced(a)
+	}
 	g := newGen("c09", a.seed, a.idx)
 	env, err := openEnv(a.cfg, g.schema, g.maxSize)
 	if err != nil {
@@ -219,6 +224,22 @@ func runC09(rc *runCtx) error {
 		errText  string
 		searchErrs []string
 	}
+	// jobs: n stress runs (cfg 0) and n/2 forced-schedule runs (cfg 10)
+	type job struct{ idx, cfg int }
+	var jobs []job
+	for i := 0; i < n; i++ {
+		jobs = append(jobs, job{i, 0})
+	}
+	for i := 0; i < (n+1)/2; i++ {
+		jobs = append(jobs, job{i, 10})
+	}
+	if rc.only != "" {
+		var oi, oc int
+		fmt.Sscanf(rc.only, "%d:%d", &oi, &oc)
+		jobs = []job{{oi, oc}}
+	}
+	nstress := n
+	n = len(jobs)
 	results := make([]res, n)
 	var wg sync.WaitGroup
 	sem := make(chan struct{}, 6) // each run is itself concurrent
@@ -232,7 +253,7 @@ func runC09(rc *runCtx) error {
 			out := filepath.Join(scratch, fmt.Sprintf("c09_%d.txt", i))
 			ctx, cancel := context.WithTimeout(context.Background(), 60*time.Second)
 			defer cancel()
-			cmd := exec.CommandContext(ctx, self, "shardrun", "-profile", "c09", "-seed", fmt.Sprint(rc.seed), "-idx", fmt.Sprint(i), "-cfg", "0", "-out", out)
+			cmd := exec.CommandContext(ctx, self, "shardrun", "-profile", "c09", "-seed", fmt.Sprint(rc.seed), "-idx", fmt.Sprint(jobs[i].idx), "-cfg", fmt.Sprint(jobs[i].cfg), "-out", out)
 			var stderr strings.Builder
 			cmd.Stderr = &stderr
 			err := cmd.Run()
@@ -276,13 +297,20 @@ func runC09(rc *runCtx) error {
 	hist := map[string]int{}
 	errSet := map[string]int{}
 	total := 0
+	forcedSearches := 0
+	_ = nstress
 	var crashTexts []string
 	for i, r := range results {
 		if r.term == "" {
 			return fmt.Errorf("run %d produced nothing: %s", i, r.errText)
 		}
 		files[i%nfiles].Add(r.term)
-		hist[fmt.Sprintf("searchers=%d", r.nsearch)]++
+		if jobs[i].cfg == 10 {
+			hist["forced-schedule runs"]++
+			forcedSearches += r.searches
+		} else {
+			hist[fmt.Sprintf("searchers=%d", r.nsearch)]++
+		}
 		total += r.searches
 		if strings.HasPrefix(r.term, "(C09Crash") {
 			hist["crashed"]++
@@ -305,7 +333,18 @@ func runC09(rc *runCtx) error {
 	rc.stats["evaluations"] = n
 	rc.stats["distinct"] = n
 	rc.stats["histogram"] = hist
-	rc.stats["concurrent_searches_observed"] = total
+	rc.stats["concurrent_searches_observed"] = total - forcedSearches
+	rc.stats["forced_schedule_searches"] = forcedSearches
+	jl := make([][2]int, len(jobs))
+	for i, j := range jobs {
+		jl[i] = [2]int{j.idx, j.cfg}
+	}
+	rc.stats["jobs"] = jl
+	var cindex []map[string]any
+	for i, j := range jobs {
+		cindex = append(cindex, map[string]any{"file": i % nfiles, "pos": i / nfiles, "idx": j.idx, "cfg": j.cfg})
+	}
+	rc.stats["case_index"] = cindex
 	rc.stats["crash_texts"] = crashTexts
 	rc.stats["search_error_texts"] = errSet
 	rc.stats["seed"] = rc.seed
